@@ -1403,7 +1403,9 @@ ldb_versions_apply(ldb_versions_t *vset, ldb_edit_t *edit, ldb_mutex_t *mu) {
 }
 
 static int
-ldb_versions_reuse_manifest(ldb_versions_t *vset, const char *dscname) {
+ldb_versions_reuse_manifest(ldb_versions_t *vset,
+                            const char *dscname,
+                            uint64_t good_end) {
   ldb_filetype_t manifest_type;
   uint64_t manifest_number;
   uint64_t manifest_size;
@@ -1418,6 +1420,9 @@ ldb_versions_reuse_manifest(ldb_versions_t *vset, const char *dscname) {
   if (!ldb_parse_filename(&manifest_type, &manifest_number, dscbase) ||
       manifest_type != LDB_FILE_DESC ||
       ldb_file_size(dscname, &manifest_size) != LDB_OK ||
+      /* Do not append behind a torn or corrupt tail: the records
+         would be dropped by the next recovery. */
+      manifest_size != good_end ||
       /* Make new compacted MANIFEST if old one is too big. */
       manifest_size >= target_file_size(vset->options)) {
     return 0;
@@ -1505,6 +1510,7 @@ ldb_versions_recover(ldb_versions_t *vset, int *save_manifest) {
   uint64_t log_number = 0;
   uint64_t prev_log_number = 0;
   int read_records = 0;
+  uint64_t good_end = 0; /* Offset just past the last complete record. */
   builder_t builder;
   ldb_rfile_t *file;
   int rc;
@@ -1545,6 +1551,8 @@ ldb_versions_recover(ldb_versions_t *vset, int *save_manifest) {
 
     while (ldb_reader_read_record(&reader, &record, &buf) && rc == LDB_OK) {
       ++read_records;
+
+      good_end = reader.end_offset - reader.buffer.size;
 
       /* Calls ldb_edit_reset() internally. */
       if (!ldb_edit_import(&edit, &record))
@@ -1620,7 +1628,7 @@ ldb_versions_recover(ldb_versions_t *vset, int *save_manifest) {
     vset->prev_log_number = prev_log_number;
 
     /* See if we can reuse the existing MANIFEST file. */
-    if (ldb_versions_reuse_manifest(vset, fname)) {
+    if (ldb_versions_reuse_manifest(vset, fname, good_end)) {
       /* No need to save new manifest. */
     } else {
       *save_manifest = 1;
